@@ -312,6 +312,7 @@ pub struct Ctx {
     jobs: usize,
     strict: bool,
     shrink_iters: u32,
+    replay_times: usize,
 }
 
 thread_local! {
@@ -518,12 +519,18 @@ impl Ctx {
             jobs,
             strict: std::env::var_os("VERIF_STRICT").is_some(),
             shrink_iters: 2000,
+            replay_times: 1,
         }
     }
 
     /// bound on proptest shrink iterations for the following sub-checks (expensive cases: keep small)
     pub fn set_shrink_iters(&mut self, n: u32) {
         self.shrink_iters = n;
+    }
+
+    /// how many times `--replay` re-runs the saved case (schedule-dependent sims)
+    pub fn set_replay_times(&mut self, n: usize) {
+        self.replay_times = n;
     }
 
     pub fn assume(&mut self, s: &str) {
@@ -617,7 +624,8 @@ impl Ctx {
             return;
         }
         if self.replay.is_some() {
-            self.do_replay(name, &f, 1);
+            let t = self.replay_times;
+            self.do_replay(name, &f, t);
             return;
         }
         let sub_seed = self.sub_seed(name);
